@@ -33,9 +33,13 @@ MOLS = {
     "ch3": dict(batch=["ch3"], mult=2),
     "oh-": dict(batch=["oh"], charges=-1),
     "c2h4": dict(batch=["c2h4"]),
+    "hcn": dict(batch=["hcn"]),
+    "hscl": dict(batch=["hscl"]),
+    "h2s": dict(batch=["h2s"]),
 }
 mdsim.POOL.setdefault("ch3", ([6, 1, 1, 1], [[0.0, 0.0, 0.0], [1.079, 0.0, 0.0], [-0.5395, 0.9344, 0.0], [-0.5395, -0.9344, 0.0]]))
 mdsim.POOL.setdefault("oh", ([8, 1], [[0.0, 0.0, 0.0], [0.97, 0.0, 0.0]]))
+mdsim.POOL.setdefault("hscl", ([17, 16, 1], [[0.0, 0.0, 0.0], [0.0, 2.05, 0.0], [1.30, 2.35, 0.1]]))
 
 # settings families: jobs of one family may share ONE dictionary object (with different molecules)
 FAM = {
@@ -60,6 +64,9 @@ FAM = {
     "am1_md": {"method": "AM1", "scf_eps": 1e-7, "scf_converger": [1], "elements": [0, 1, 6, 7, 8, 9]},
     "am1_bad_active": {"method": "AM1", "scf_eps": 1e-7, "scf_converger": [1], "active_state": 1},
     "am1_uhf_pulay": {"method": "AM1", "scf_eps": 1e-7, "scf_converger": [2], "UHF": True},
+    # PM6 with d-shell elements (S, Cl): process-global caches of d-orbital terms are in play
+    "pm6_d": {"method": "PM6", "scf_eps": 1e-8, "scf_converger": [0, 0.2]},
+    "pm6_d_learned": {"method": "PM6", "scf_eps": 1e-8, "scf_converger": [0, 0.2], "learned": ["zeta_d"]},
 }
 
 JOBS = {
@@ -102,6 +109,11 @@ JOBS = {
     "md_lang_mixc": dict(fam="am1_md", mol="mixc", kind="md", eng="langevin"),
     "opt_h2o": dict(fam="am1_md", mol="h2o", kind="opt"),
     "opt_nh3": dict(fam="am1_md", mol="nh3", kind="opt"),
+    "md_basic_hcn": dict(fam="am1_md", mol="hcn", kind="md", eng="basic"),
+    "sp_pm6_hscl": dict(fam="pm6_d", mol="hscl", kind="sp"),
+    "sp_pm6_h2s": dict(fam="pm6_d", mol="h2s", kind="sp"),
+    "sp_pm6_hscl_learned": dict(fam="pm6_d_learned", mol="hscl", kind="sp", learned={"zeta_d": [1.45, 1.60, 0.0]}),
+    "fail_pm6_float32": dict(fam="pm6_d", mol="hscl", kind="sp", dtype="float32", expect_fail=True),
     "fail_odd_rhf": dict(fam="am1", mol="ch3", kind="sp", nomult=True, expect_fail=True),
     "fail_unsorted": dict(fam="am1", mol="h2o", kind="sp", unsorted=True, expect_fail=True),
     "fail_uhf_pulay": dict(fam="am1_uhf_pulay", mol="ch3", kind="sp", expect_fail=True),
@@ -146,7 +158,11 @@ class Session:
 
         j = JOBS[name]
         fam = j["fam"]
-        if reuse.get("const") and self.const is not None:
+        if j.get("dtype"):
+            # a call in another precision builds its own objects: a Constants instance created under another
+            # default dtype is not a valid object to hand to a float64 job (that would be the caller's error)
+            const = Constants()
+        elif reuse.get("const") and self.const is not None:
             const = self.const
         else:
             const = Constants()
@@ -158,6 +174,7 @@ class Session:
             self.dicts[fam] = sp  # "the dictionary of this family" = the most recent one
         m = MOLS[j["mol"]]
         species, xyz = mdsim.build_batch({"batch": m["batch"], "rotate": 77})
+        dtype = getattr(torch, j.get("dtype", "float64"))
         if j.get("unsorted"):
             species = species[:, ::-1].copy()
             xyz = xyz[:, ::-1].copy()
@@ -166,11 +183,13 @@ class Session:
             kw["mult"] = m["mult"]
         if "charges" in m:
             kw["charges"] = m["charges"]
-        mol = Molecule(const, sp, torch.as_tensor(xyz), torch.as_tensor(species, dtype=torch.int64), **kw)
+        mol = Molecule(const, sp, torch.as_tensor(xyz, dtype=dtype), torch.as_tensor(species, dtype=torch.int64), **kw)
         mol.verbose = False
         return j, sp, mol
 
     def _driver(self, cls, name, sp, mol, reuse):
+        if JOBS[name].get("dtype"):
+            return cls(sp)
         key = (cls.__name__, id(sp))
         need = set(mol.species.reshape(-1).tolist())
         if reuse.get("driver") and key in self.drivers and need <= self.drivers[key][1]:
@@ -186,11 +205,19 @@ class Session:
         import seqm.MolecularDynamics as MDm
         from seqm.ElectronicStructure import Electronic_Structure
 
-        j, sp, mol = self._inputs(name, reuse)
-        kind = j["kind"]
+        if JOBS[name].get("dtype"):
+            # a caller working in another precision switches the default dtype for its call and back
+            torch.set_default_dtype(getattr(torch, JOBS[name]["dtype"]))
+        try:
+            j, sp, mol = self._inputs(name, reuse)
+            kind = j["kind"]
+            if kind == "sp":
+                es = self._driver(Electronic_Structure, name, sp, mol, reuse)
+                lp = {k: torch.as_tensor(v, dtype=mol.coordinates.dtype) for k, v in j.get("learned", {}).items()}
+                es(mol, learned_parameters=lp) if lp else es(mol)
+        finally:
+            torch.set_default_dtype(torch.float64)
         if kind == "sp":
-            es = self._driver(Electronic_Structure, name, sp, mol, reuse)
-            es(mol)
             out = {"Etot": _np(mol.Etot), "force": _np(mol.force), "dm": _np(mol.dm), "q": _np(mol.q), "e_gap": _np(mol.e_gap)}
             if torch.is_tensor(mol.cis_energies):
                 out["cis_energies"] = _np(mol.cis_energies)
